@@ -15,7 +15,10 @@ func raceEnv(b *Batch, seed uint64) []string {
 	dir := filepath.Join(binDir, "race")
 	os.MkdirAll(dir, 0o755)
 	env := append([]string{}, b.Env...)
-	env = append(env, "GORACE=halt_on_error=0 log_path="+filepath.Join(dir, "log"))
+	env = append(env, "GORACE=halt_on_error=0 history_size=7 log_path="+filepath.Join(dir, "log"))
+	if b.Kind == "race" {
+		env = append(env, "VERIF_FAKE_STDIN=1") // fresh process per run: //os.stdin can be first-read under contention
+	}
 	switch mix(seed, "frozen-concurrency", 0) % 4 {
 	case 1:
 		env = append(env, "FROZEN_CONCURRENCY=off")
